@@ -289,7 +289,15 @@ func (c *Client) Resume() error {
 	// for example.
 	if c.PostResumeHook != nil {
 		err = c.PostResumeHook()
+		if err != nil {
+			return err
+		}
 	}
+
+	// The previous receive and keepalive loops ended with the lost connection: start them on the new one
+	keepaliveQuit := make(chan struct{})
+	go keepalive(c.transport, c.config.KeepaliveInterval, keepaliveQuit)
+	go c.recv(keepaliveQuit)
 	return err
 }
 
